@@ -77,7 +77,32 @@ def convert_batch(s, rng):
     return {"cfg": cfg, "ops": ops}
 
 
-MODEL_CONVERTERS = {"BatchOpen": convert_batch}
+def convert_stale(s, rng):
+    """Behaviour of StaleReconcile.tla -> channet script (A - B - C): k HTLCs outstanding on B-C when B's manager is
+    written; C resolves the ones TLC chose, in that order, each dance completing link by link (B does not get to act on
+    it); B restarts from the written manager and the latest monitors."""
+    import fwd_scripts
+    k = s["k"]
+    ops = []
+    for _ in range(k):
+        if rng.random() < 0.7:
+            ops += [{"op": "send", "from": 0, "to": 2, "amt": rng.choice(["big", "justabove", "justabove"])},
+                    {"op": "deliver_all"}, {"op": "forward", "node": 1}, {"op": "deliver_all"}]
+        else:
+            ops += [{"op": "send", "from": 1, "to": 2, "amt": rng.choice(["big", "justabove"])}, {"op": "deliver_all"}]
+    ops.append({"op": "save", "node": 1})
+    dance = ([{"op": "deliver", "from": 2, "to": 1}] * 3 + [{"op": "deliver", "from": 1, "to": 2}] * 3) * 3
+    for st in s["steps"]:
+        if st["op"] in ("fail", "claim"):
+            ops.append({"op": st["op"], "pay": st["htlc"] - 1})
+            ops += dance
+        else:
+            ops.append({"op": "crash", "node": 1, "mgr": "saved", "mon": "latest"})
+    ops += fwd_scripts._wind_down(k, rng, [(0, 1), (1, 2)])
+    return {"cfg": fwd_scripts._cfg(rng, 3), "ops": ops}
+
+
+MODEL_CONVERTERS = {"BatchOpen": convert_batch, "StaleReconcile": convert_stale}
 
 
 def run_lines(path, run):
